@@ -118,7 +118,7 @@ partial def loop (h : IO.FS.Stream) (s : S) : IO Unit := do
     loop h s
   | ["inv", _, _, speed, count0, pos0, _, _, smp, mapped, vsmp, vq, vqsmp, vpaused, present, lp, slp, is16, dnull, lps, lpe, sus, sue, _, _] =>
     let cv : ChanVoice := { chanSmp := smp.toInt?.getD 0, mapped := b mapped, voiceSmp := vsmp.toInt?.getD 0, queued := b vq,
-                            queuedSmp := vqsmp.toInt?.getD 0, paused := b vpaused }
+                            queuedSmp := vqsmp.toInt?.getD 0, paused := (vpaused.toNat?.getD 0) % 2 == 1 }
     let st : InvState := { speed := speed.toNat?.getD 0, count := count0.toInt?.getD 0, pos := pos0.toInt?.getD 0 }
     let x : Option InvSample := if b present then
         some { loop := b lp, sloop := b slp, is16 := b is16, dataNull := b dnull, lps := lps.toInt?.getD 0,
